@@ -62,6 +62,49 @@ Section Progress.
     Lemma chain_from_old v : chain C old v -> v = old \/ v = new.
     Proof. apply chain_closed; assumption. Qed.
 
+    (* ---------- the roleRef of a binding is stable when nothing was ever called like its apiGroup / kind ---------- *)
+    Definition external (v : string) : Prop := forall c, In c C -> prev_name_matches v c = false.
+
+    Lemma lookup_key_some n name x :
+      lookup [PKey name] n = Ok (Some x) -> exists kvs, n = Map kvs /\ find_field name kvs = Some x.
+    Proof.
+      unfold lookup. cbn [walk]. destruct n as [t s v|kvs|es]; try (destruct (is_null _); cbn; discriminate).
+      destruct (find_field name kvs) as [y|] eqn:E; cbn; intros H; inv H. eauto.
+    Qed.
+
+    Lemma lookup_key_map kvs name x : find_field name kvs = Some x -> lookup [PKey name] (Map kvs) = Ok (Some x).
+    Proof. intros H. unfold lookup. cbn [walk]. rewrite H. reflexivity. Qed.
+
+    Lemma node_value_rw n n' : rw (chain C) n n' -> external (node_value n) -> node_value n' = node_value n.
+    Proof.
+      intros H He. destruct n as [t s v|kvs|es]; destruct n' as [t' s' v'|kvs'|es']; cbn in H; try contradiction;
+        try reflexivity; try (destruct kvs as [|[? ?] ?]; contradiction); try (destruct es; contradiction).
+      destruct H as [H _]. cbn [node_value] in *. apply (chain_external C v v' He H).
+    Qed.
+
+    Lemma roleref_rw n n' g :
+      rw (chain C) n n' -> roleref_gvk n = Some g -> external (g_group g) -> external (g_kind g) ->
+      roleref_gvk n' = Some g.
+    Proof.
+      intros Hrw Hg Eg Ek. unfold roleref_gvk in Hg.
+      destruct (lookup [PKey "roleRef"] n) as [[rr|]| | |] eqn:L1; try discriminate.
+      destruct (lookup [PKey "apiGroup"] rr) as [[gn|]| | |] eqn:L2; try discriminate.
+      destruct (lookup [PKey "kind"] rr) as [[kn|]| | |] eqn:L3; try discriminate. inv Hg.
+      cbn [g_group g_kind gvk_lit] in Eg, Ek.
+      destruct (lookup_key_some _ _ _ L1) as (kvs & -> & F1).
+      destruct (lookup_key_some _ _ _ L2) as (rkvs & -> & F2).
+      destruct (lookup_key_some _ _ _ L3) as (rkvs0 & E0 & F3). inv E0.
+      destruct n' as [| kvs' |]; try (cbn in Hrw; destruct kvs as [|[? ?] ?]; contradiction).
+      rewrite rw_map_eq in Hrw.
+      destruct (rw_kvs_find _ _ _ _ _ Hrw F1) as (rr' & F1' & [Hrr|Hx]); [|discriminate].
+      destruct rr' as [| rkvs' |]; try (cbn in Hrr; destruct rkvs0 as [|[? ?] ?]; contradiction).
+      rewrite rw_map_eq in Hrr.
+      destruct (rw_kvs_find _ _ _ _ _ Hrr F2) as (gn' & F2' & [Hgn|Hx]); [|discriminate].
+      destruct (rw_kvs_find _ _ _ _ _ Hrr F3) as (kn' & F3' & [Hkn|Hx]); [|discriminate].
+      unfold roleref_gvk. rewrite (lookup_key_map _ _ _ F1'), (lookup_key_map _ _ _ F2'), (lookup_key_map _ _ _ F3').
+      rewrite (node_value_rw _ _ Hgn Eg), (node_value_rw _ _ Hkn Ek). reflexivity.
+    Qed.
+
     Variable a : list astep.
     Hypothesis a_no_ns : no_ns_key a.
 
@@ -85,7 +128,12 @@ Section Progress.
 
       (* the rule row that is about the referent, and the referent as a candidate *)
       Variables (fs : fieldspec) (tg : gvk) (b : cand).
-      Hypothesis fs_not_roleref : has_suffix "roleRef/name" (fs_path fs) = false.
+      (* the roleRef kind sieve accepts the referent; for a roleRef/name field the referrer's roleRef
+         (apiGroup, kind) consists of texts nothing was ever called *)
+      Hypothesis b_roleref : roleref_sieve (make_ctx cs r0 (fs_path fs) tg) b = true.
+      Hypothesis roleref_ok :
+        has_suffix "roleRef/name" (fs_path fs) = false \/
+        exists g, roleref_gvk (r_node r0) = Some g /\ external (g_group g) /\ external (g_kind g).
       Hypothesis b_unique : filter (name_kind_match (make_ctx cs r0 (fs_path fs) tg) old) cands = [b].
       Hypothesis b_visible : namespace_sieve (make_ctx cs r0 (fs_path fs) tg) b = true.
       Hypothesis b_name : c_name b = new.
@@ -95,6 +143,15 @@ Section Progress.
       Proof.
         intros H. rewrite (mapM_view_ext cs _ _ (select_by_Forall2 _ flags _ _ (Forall2_mid mb ma r0 r H))).
         exact views_sub.
+      Qed.
+
+      Lemma roleref_now r : rw (chain C) (r_node r0) (r_node r) ->
+        roleref_sieve (make_ctx cs r (fs_path fs) tg) b = true.
+      Proof.
+        intros Hrw. destruct roleref_ok as [Hoff|(g & Hg & E1 & E2)]; [apply roleref_sieve_off; exact Hoff|].
+        pose proof (roleref_rw _ _ g Hrw Hg E1 E2) as Hg'.
+        unfold roleref_sieve, make_ctx in *. cbn [x_path x_roleref] in *. rewrite Hg'. rewrite Hg in b_roleref.
+        exact b_roleref.
       Qed.
 
       Lemma cands_incl : incl cands C.
@@ -120,14 +177,14 @@ Section Progress.
 
       (* while it still says [old] and the rule of the referent's row is still to come, it ends as [new] *)
       Lemma reaches_new fl : Forall (fun p => rule_ok (fst p)) fl ->
-        forall r r' t s, same_identity r0 r ->
+        forall r r' t s, same_identity r0 r -> rw (chain C) (r_node r0) (r_node r) ->
           apply_rules cs nonstr mb ma flags fl r = Ok r' ->
           In (fs, tg) fl ->
           reaches (path_splitter (fs_path fs)) a (r_node r) = true ->
           get_addr a (r_node r) = Some (Scalar t s old) -> is_null (Scalar t s old) = false ->
           exists t' s', get_addr a (r_node r') = Some (Scalar t' s' new).
       Proof.
-        induction fl as [|[fs0 tg0] fl IH]; intros Hok r r' t s Hid H Hin Hr Hg Hnn; [contradiction|].
+        induction fl as [|[fs0 tg0] fl IH]; intros Hok r r' t s Hid Hrw0 H Hin Hr Hg Hnn; [contradiction|].
         cbn [apply_rules] in H.
         pose proof (Forall_inv Hok) as H1. pose proof (Forall_inv_tail Hok) as H2. cbn [fst] in H1.
         rewrite (cands_now r Hid) in H. cbn [bind] in H.
@@ -142,7 +199,7 @@ Section Progress.
           assert (Hv: namespace_sieve (make_ctx cs r (fs_path fs) tg) b = true)
             by (rewrite (namespace_sieve_ext r0 r _ _ _ Hid); exact b_visible).
           destruct (refs_follow_rule cs nonstr cands fs tg r r1 a t s old b (proj1 H1) Hr Hg Hnn Hu
-                                     (roleref_sieve_off r _ tg b fs_not_roleref) Hv E) as (t1 & Hg1).
+                                     (roleref_now r Hrw0) Hv E) as (t1 & Hg1).
           rewrite b_name in Hg1. eapply stays_new; eauto.
         - destruct (rule_step _ _ _ _ _ _ _ _ H1 cands_incl E Hg) as (t1 & s1 & v1 & Hg1 & Hc & Htag).
           destruct (chain_from_old _ Hc) as [-> | ->].
@@ -152,7 +209,7 @@ Section Progress.
             pose proof (rw_reaches (chain C) a _ _ _ Hrw a_no_ns Hr) as Hr1.
             assert (Hnn1: is_null (Scalar t1 s1 old) = false).
             { destruct t1; try reflexivity. rewrite (Htag eq_refl) in Hnn. discriminate. }
-            eapply IH; eauto.
+            eapply IH; eauto. eapply (rw_trans (chain C) (chain_trans C)); eauto.
           + eapply stays_new; eauto.
       Qed.
     End OneReferrer.
@@ -237,7 +294,6 @@ Section Progress.
     Hypothesis row_in : In row rules.
     Hypothesis fs_in : In fs (nb_referrers row).
     Hypothesis fs_selects : gvk_is_selected (id_gvk org) (fs_gvk fs) = true.
-    Hypothesis fs_not_roleref : has_suffix "roleRef/name" (fs_path fs) = false.
     Hypothesis r_flags : referencable cs m r = Ok flags.
     Hypothesis r_cands : mapM (view cs) (select_by flags m) = Ok cands.
 
@@ -251,6 +307,10 @@ Section Progress.
     (* unambiguity *)
     Hypothesis b_unique : filter (name_kind_match (make_ctx cs r (fs_path fs) (nb_gvk row)) old) cands = [b].
     Hypothesis b_visible : namespace_sieve (make_ctx cs r (fs_path fs) (nb_gvk row)) b = true.
+    Hypothesis b_roleref : roleref_sieve (make_ctx cs r (fs_path fs) (nb_gvk row)) b = true.
+    Hypothesis roleref_ok :
+      has_suffix "roleRef/name" (fs_path fs) = false \/
+      exists g, roleref_gvk (r_node r) = Some g /\ external C (g_group g) /\ external C (g_kind g).
     Hypothesis closed_old : forall c, In c C -> prev_name_matches old c = true -> c_name c = c_name b.
     Hypothesis closed_new : forall c, In c C -> prev_name_matches (c_name b) c = true -> c_name c = c_name b.
 
@@ -307,8 +367,9 @@ Section Progress.
       assert (Hokfl: Forall (fun p => rule_ok (fst p)) (f0 :: fl')).
       { rewrite <- Efl. apply filters_for_ok. assumption. }
       eapply (reaches_new C no_empty_name old (c_name b) closed_old closed_new a a_no_ns
-                          done' post r flags' cands HC' Hsub fs (nb_gvk row) b fs_not_roleref b_unique b_visible eq_refl
-                          (f0 :: fl') Hokfl r r' t s (same_identity_refl r) Happly Hin a_reached a_holds a_not_null).
+                          done' post r flags' cands HC' Hsub fs (nb_gvk row) b b_roleref roleref_ok b_unique b_visible eq_refl
+                          (f0 :: fl') Hokfl r r' t s (same_identity_refl r) (rw_refl (chain C) (chain_refl C) _)
+                          Happly Hin a_reached a_holds a_not_null).
     Qed.
   End Main.
 End Progress.
